@@ -19,8 +19,9 @@ provider thread's exception path.
 * `C27_life_code`, `C27_life_est_order_code` — the facts about `acse.py` / `association.py` the
   model was written from, regenerated on every run, and the ordering theorem instantiated with the
   regenerated re-check facts.
-* `C27_life_flags` — on the same schedules, without the provider's exception path,
-  `is_established` is never true together with `is_aborted`, `is_released` or `is_rejected`.
+* `C27_life_flags`, `C27_life_done_not_established` — on the same schedules, without the provider's
+  exception path, `is_established` is never true together with `is_aborted`, `is_released`,
+  `is_rejected` or `_kill`, and it is false once the association thread has finished.
 -/
 namespace PynetVerif
 open History Life
@@ -280,11 +281,13 @@ def noCrash : List Op → Bool
 /-- `is_established` excludes the three other outcome flags -/
 def flagB (k : Core) : Bool :=
   match k with
-  | ⟨est, rel, abt, rej, _, _, a, u⟩ =>
-    imp est (!abt && !rel && !rej) &&
+  | ⟨est, rel, abt, rej, _, kill, a, u⟩ =>
+    imp est (!abt && !rel && !rej && !kill) &&
+    imp (match a with | .done => true | _ => false) (!est) &&
     imp a.isSetEst (!abt && !rel && !rej && u.isIdle) &&
     imp a.isEmitEst u.isIdle &&
-    imp (rej || rel || u.isRelWait) (past a)
+    imp (rej || rel || u.isRelWait) (past a) &&
+    imp kill (abt || rej || rel || past a)
 
 def flagPreserves (acceptor : Bool) : Bool :=
   allCore fun k => allSum fun p => imp (invB k p && flagB k) (allOp fun op =>
@@ -330,8 +333,27 @@ theorem C27_life_flags (c : Cfg) (hg : c.guard = true) (ops : List Op)
   obtain ⟨est, rel, abt, rej, sa, kill, a, u⟩ := k
   simp only at he
   subst he
-  simp only [flagB, imp, Bool.and_eq_true, Bool.not_true, Bool.false_or] at h
-  simpa [and_assoc] using h.1.1.1
+  cases abt <;> cases rel <;> cases rej <;> simp_all [flagB, imp]
+
+/-- On the same schedules: once the association thread has finished, `is_established` is false
+(no association is left "established" with nobody serving it), and an established association
+has not been told to stop. -/
+theorem C27_life_done_not_established (c : Cfg) (hg : c.guard = true) (ops : List Op)
+    (hok : runOk c init ops = true) (hnc : noCrash ops = true) :
+    ((run c init ops).core.a = .done → (run c init ops).core.est = false) ∧
+    ((run c init ops).core.est = true → (run c init ops).core.kill = false) := by
+  have h := run_flagInv c hg ops init inv_init (by decide) hok hnc
+  generalize (run c init ops).core = k at h
+  obtain ⟨est, rel, abt, rej, sa, kill, a, u⟩ := k
+  constructor
+  · intro ha
+    simp only at ha
+    subst ha
+    cases est <;> simp_all [flagB, imp]
+  · intro he
+    simp only at he
+    subst he
+    cases kill <;> simp_all [flagB, imp]
 
 /-- before the repair both flags were true at once after a handler-made abort -/
 theorem C27_life_flags_unguarded_neg :
